@@ -45,7 +45,23 @@ def specs(T):
                  'alphas = np.array([alpha / 2, 1 - alpha / 2])',
                  'ci = np.percentile(bootstrap_dist, list(100 * alphas))'):
         T.body_contains(S, 'confidence_interval_bootstrap', frag)
+    sm = _nums(T, S, '_smooth_samples_by_weight', 3)          # k ** (-1 / 4) ; 1 - w
+    T.body_contains(S, '_smooth_samples_by_weight', 'k = len(values)')
     T.body_contains(S, '_smooth_samples_by_weight', 'bw = k ** (-1 / 4)')
+    T.body_contains(S, '_smooth_samples_by_weight', 'return samples')
+    for frag in ('samples = ((np.take(values, idx), np.take(weights, idx)) for idx in rand_indices)',
+                 'samples = _smooth_samples_by_weight(values, samples)',
+                 'bootstrap_dist = np.fromiter(seg_means, np.float64, bootstraps)', 'bootstraps = new_boots',
+                 'k = len(values)'):
+        T.body_contains(S, 'confidence_interval_bootstrap', frag)
+    for frag in ("segarr['ci_lo'], segarr['ci_hi'] = calc_intervals(bins_log2s, weights, stat_funcs['ci'])",
+                 "segarr['pi_lo'], segarr['pi_hi'] = calc_intervals(bins_log2s, weights, stat_funcs['pi'])",
+                 "if 'ci' in interval_stats:", "if 'pi' in interval_stats:", 'for statname in location_stats:',
+                 'for statname in spread_stats:', 'segarr = segarr.copy()', "weights = cnarr['weight']",
+                 'segarr[statname] = np.fromiter(map(func, bins_log2s), np.float64, len(segarr))',
+                 'segarr[statname] = np.fromiter(map(func, deviations), np.float64, len(segarr))'):
+        T.body_contains(S, 'do_segmetrics', frag)
+    T.body_contains(S, 'calc_intervals', 'out_vals_lo[i], out_vals_hi[i] = func(ser.values, wt.values)')
     T.body_contains(S, '_smooth_samples_by_weight',
                     'samples = [(v + bw * np.sqrt(1 - w) * np.random.randn(k), w) for v, w in samples]')
 
@@ -80,6 +96,14 @@ def specs(T):
                  "antitarget_idx = cnarr['gene'].isin(params.ANTITARGET_ALIASES)", 'cnarr = cnarr[~antitarget_idx]',
                  "cnarr['p_bintest'] = z_prob(cnarr)", "is_sig = cnarr['p_bintest'] < alpha", 'hits = cnarr[is_sig]'):
         T.body_contains(B, 'do_bintest', frag)
+    bt = _nums(T, B, 'do_bintest', 4)                         # alpha default ; head(50) ; probes = 1 ; 100 %
+    for frag in ('cnarr = cnarr.copy()', "cnarr['probes'] = 1", 'if target_only:', 'if antitarget_idx.any():',
+                 'if not resid.index.is_unique:', 'resid = resid[~resid.index.duplicated()]',
+                 'cnarr = cnarr.as_dataframe(cnarr.data.loc[resid.index])', 'if len(cnarr) != len(resid):', 'return hits'):
+        T.body_contains(B, 'do_bintest', frag)
+    T.body_contains(C, 'CopyNumArray.residuals', 'if not segments:')
+    T.body_contains(C, 'CopyNumArray.residuals', "elif 'log2' in segments:")
+    T.body_contains(C, 'CopyNumArray.residuals', 'return pd.concat(resids) if resids else pd.Series([])')
     T.body_contains(C, 'CopyNumArray.residuals', "self.iter_ranges_of(segments, 'log2', mode='inner', keep_empty=True)")
     T.body_contains(C, 'CopyNumArray.residuals', 'bins_lr - seg_lr')
     T.body_contains(C, 'CopyNumArray.residuals', 'subcna.log2 - subcna.log2.median() for _chrom, subcna in self.by_chromosome()')
@@ -99,6 +123,9 @@ def specs(T):
         ('ci_min_k', 'Z', T.compare_with(S, 'confidence_interval_bootstrap', 'k', 'Lt')),
         ('ci_seed', 'Z', ci[8]),
         ('ci_two_lo', 'Q', ci[10]), ('ci_one_hi', 'Q', ci[11]), ('ci_two_hi', 'Q', ci[12]), ('ci_hundred', 'Q', ci[13]),
+        ('sm_bw_exp_num', 'Z', sm[0]), ('sm_bw_exp_den', 'Z', sm[1]),   # bw = k ** (-1 / 4)
+        ('sm_one', 'Q', sm[2]),                      # np.sqrt(1 - w)
+        ('bt_probes', 'Z', bt[2]),                   # cnarr["probes"] = 1
         ('bt_alpha_default', 'Q', T.default(B, 'do_bintest', 'alpha')),
         ('bt_target_only_default', 'bool', T.default(B, 'do_bintest', 'target_only')),
         ('z_one', 'Q', zp[0]), ('z_two', 'Q', zp[1]),
